@@ -607,6 +607,9 @@ def type_of(I, v):
         return type
     if isinstance(v, GenList):
         return TypingDummy("generator")
+    if hasattr(v, "lib") and hasattr(v, "py_getattr"):
+        from .libstubs import StubType, Series
+        return StubType(v.lib, "Series" if isinstance(v, Series) else "DataFrame")
     return type(v)
 
 
@@ -684,6 +687,8 @@ def isinstance_foreign(I, v, t):
         return isinstance(v, (int, float, bool, NpScalar)) or isinstance(v, Sym)
     if t is IteratorMarker:
         return isinstance(v, GenList)
+    if hasattr(t, "py_isinstance"):
+        return t.py_isinstance(v)
     if isinstance(t, TypingDummy):
         raise Untranslatable(f"isinstance against typing construct {t.name}")
     if t is _abc.ABC:
